@@ -4,6 +4,7 @@ import Knut.FactsAgree.TransJPrinter
 import Knut.Model.Beancount
 import Knut.Proofs.LayoutPrint
 import Knut.Proofs.Beancount
+import Knut.Proofs.PrintSound
 /-!
 # The translated `beancount.Transcode` agrees with `Model/Beancount.lean`
 
@@ -32,11 +33,13 @@ and `Targets` arbitrary), returns the writer `w ++ text` for the model's text an
 | the loops that synthesise the opens (`openValAccounts`, `strings.HasPrefix`) | `range4_agrees`, `range3_agrees` (`SetRel`, `HasPrefix_agrees`) | `synthPs`, `synthTxs` (= `Beancount.synthStep/synthOpens`: `synthOpens_eq`) |
 | `compare.Sort(day.Transactions, transaction.Compare)` | `sorted_of_spec` (every `sort1` with `SortSliceOn` yields a sorted permutation of the model's transactions), `dayTextOf_sorted` (every sorted permutation is written as the model's stable `sortTxs` is, and leaves the same accounts seen) | `sortTxs` |
 | the loop over the days, `Transcode` | `range1_agrees`, **`Transcode_agrees`** | `daysText` (= the text of `entriesFrom`: `entriesFrom_text`), `Beancount.render v (Beancount.entries pds)` |
+| `Transcode` on the processed journal of the model command | `Transcode_run_agrees` | the stdout of `Beancount.run (some v) ds` (build, `Sort`, `ComputePrices`, `check`, `Valuate`, entries, text) |
 
 Invariants stated in the theorems (and nowhere hidden):
 * `DayOK`: every date of the day is `DateOK` (`0 ≤ year`: `Time.Format` prints a sign before that, the model's `fmtDate` does not) and
   `AccountsByName`: among the postings of a day an account is determined by its name (the registry interns accounts by name) — only
-  used to show that transactions which `transaction.Compare` cannot tell apart are written alike, whichever of them comes first;
+  used to show that transactions which `transaction.Compare` cannot tell apart are written alike, whichever of them comes first
+  (`AccountsByName_of_wf`: it holds when every account has non-empty segments without a colon);
 * `v ≠ ""`: the commodity is not the zero value (`c == nil` is false).  For a nil `c` Go panics in `c.Name()`; the translation does not.
 * `PDayRel`/`TRelB`: the Go day stands for the model's processed day; every `Src` pointer and the `Targets` are arbitrary.
 
@@ -767,6 +770,41 @@ theorem Transcode_agrees_spec (cur : String → Bool) (w : String) (j : journal.
     (hj : AllRel (PDayRel cur) j.Days pds) (hok : ∀ d ∈ pds, DayOK d) (hv : v ≠ "") :
     beancount.Transcode w j (commodityGo cur v) sort1 = .ok (w ++ Beancount.render v (Beancount.entries pds), none) :=
   Transcode_agrees cur w j pds v sort1 (fun g _ => hs g.Transactions) hj hok hv
+
+/-- a sufficient condition for `AccountsByName`: the accounts are what the registry makes of their names (non-empty segments
+without a colon: splitting the name gives the segments back) -/
+theorem AccountsByName_of_wf (ts : List Knut.Transaction)
+    (h : ∀ t ∈ ts, ∀ p ∈ t.postings, (p.account.segments ≠ [] ∧ ∀ s ∈ p.account.segments, ':' ∉ s.toList) ∧
+      (p.other.segments ≠ [] ∧ ∀ s ∈ p.other.segments, ':' ∉ s.toList)) : AccountsByName ts := by
+  intro t ht u hu p hp q hq
+  obtain ⟨⟨a1, a2⟩, ⟨o1, o2⟩⟩ := h t ht p hp
+  obtain ⟨⟨b1, b2⟩, ⟨r1, r2⟩⟩ := h u hu q hq
+  constructor
+  · intro e
+    rw [← FromSyntax.ofName_name p.account a1 a2, ← FromSyntax.ofName_name q.account b1 b2, e]
+  · intro e
+    rw [← FromSyntax.ofName_name p.other o1 o2, ← FromSyntax.ofName_name q.other r1 r2, e]
+
+/-- **the stdout of the model's `knut transcode -v v`** (`Beancount.run`: build, `Sort`, `ComputePrices`, `check`, `Valuate`, entry list,
+text) **is what the translated `Transcode` writes** into an empty writer, for a Go journal that stands for the model's processed days -/
+theorem Transcode_run_agrees (cur : String → Bool) (j : journal.Journal) (ds : List Knut.Directive) (pds : List Beancount.ProcDay)
+    (v : Knut.Commodity)
+    (sort1 : (transaction.Transaction → transaction.Transaction → GoSem.Outcome Int) → List transaction.Transaction → List transaction.Transaction)
+    (hs : ∀ g ∈ j.Days, SortSliceOn sort1 transaction.Compare (GoSem.Outcome.ok (-1)) g.Transactions)
+    (hp : Beancount.process v (Builder.ofList ds).build = .ok pds)
+    (hj : AllRel (PDayRel cur) j.Days pds) (hok : ∀ d ∈ pds, DayOK d) (hvalid : Beancount.validCommodity v = true) :
+    ∃ text, Beancount.run (some v) ds = .ok text ∧
+      beancount.Transcode "" j (commodityGo cur v) sort1 = .ok (text, none) := by
+  have hv : v ≠ "" := by
+    intro e; subst e; simp [Beancount.validCommodity] at hvalid
+  have hne : v.isEmpty = false := by
+    unfold Beancount.validCommodity at hvalid
+    simp only [Bool.and_eq_true, Bool.not_eq_true'] at hvalid
+    exact hvalid.1
+  refine ⟨Beancount.render v (Beancount.entries pds), ?_, ?_⟩
+  · simp [Beancount.run, hne, hvalid, Beancount.transcodeEntries, hp, Except.map]
+  · have := Transcode_agrees cur "" j pds v sort1 hs hj hok hv
+    simpa using this
 
 /-! ## non-vacuity: the translated definitions evaluated on a concrete processed day -/
 
